@@ -1,6 +1,7 @@
 import Ccp.Proofs.TreeForest
 import Ccp.Proofs.TreeStored
 import Ccp.Proofs.TreeBanner
+import Ccp.Model.TreeViews
 /-!
 # C03 — family relations form a consistent forest
 
@@ -440,5 +441,34 @@ example : covers coverB exBanner 0 3 = true ∧ (∀ m, 0 < m → m < 3 → cove
    (lastCover_eq_none coverM exBanner 3 3).mp (by decide)⟩
 example : covers coverM exDeep 5 8 = true ∧ (∀ q, 5 < q → q < 8 → covers coverM exDeep q 8 = false) :=
   ((lastCover_eq_some coverM exDeep 8 8 5).mp (by decide)).2
+
+/-! ## the two remaining views the property names: `geneology_text`, `has_children` (`Model/TreeViews.lean`) -/
+
+/-- `geneology_text` is the texts along the path from the root down to the line itself: one
+text per ancestor, root first, then the line's own text (so it is never empty and its last
+entry is the line's text).  Holds for every forest, in particular for every parse of an
+indentation-style config (`parse_forest`) and every brace-syntax parse (`C08.junos_forest`). -/
+theorem geneologyText_spec {t : T} (hf : Forest t) (i : Nat) :
+    geneologyText t i = ((ancestors t i).reverse ++ [i]).map (textOf t) ∧
+    (geneologyText t i).length = (ancestors t i).length + 1 ∧
+    (geneologyText t i).getLast? = some (textOf t i) := by
+  have h : geneologyText t i = ((ancestors t i).reverse ++ [i]).map (textOf t) := by
+    rw [geneologyText, (geneology_spec hf i).1]
+  refine ⟨h, ?_, ?_⟩
+  · rw [h]; simp
+  · rw [h]; simp
+
+/-- `has_children` is `is_parent`: true iff some other line names `i` as its parent. -/
+theorem hasChildren_spec (t : T) (i : Nat) :
+    hasChildren t i = isParent t i ∧
+    (hasChildren t i = true ↔ ∃ j, j < t.size ∧ parentOf t j = i ∧ j ≠ i) := by
+  have h : hasChildren t i = isParent t i := by
+    simp only [hasChildren, isParent]
+    cases children t i <;> simp
+  exact ⟨h, by rw [h]; exact (flags_spec t i).2.1⟩
+
+example : Forest (parse exCfg exDeep) := parse_forest _ _
+example : geneologyText (parse exCfg exDeep) 3 = (parse exCfg exDeep).texts.take 4 := by decide
+example : hasChildren (parse exCfg exDeep) 1 = true ∧ hasChildren (parse exCfg exDeep) 3 = false := by decide
 
 end Ccp.C03
